@@ -305,8 +305,10 @@ func c18RecordEdges() []v.Edge {
 			out, err := rl.Marshal() // fills in ContentType and ContentLen
 			d := v.Dump{}
 			rl.Header.ContentType = protocol.ContentTypeApplicationData
-			rl.Header.ContentLen = uint16(n) //nolint:gosec // n > 65535: no value of the field is right
 			c18DumpHeader(&d, &rl.Header)
+			// the value's content length is n; when n does not fit the field no decoded header
+			// can be equal to it (RecordLayer.Unmarshal itself never looks at the field)
+			d[len(d)-1] = uint64(n)
 			c18DumpContent(&d, rl.Content)
 
 			return d, out, err
